@@ -10,6 +10,37 @@ import (
 // That set (and nothing else) is havocked when the loop is cut at its head. Everything the dry run
 // emits is guarded by its own fresh path condition, so it constrains nothing in the real run.
 func (fc *FnCtx) dryRun(st *State, label string, iter func(d *State)) []any {
+	// One dry iteration from the state at loop entry can miss assignments that only later iterations reach
+	// (a branch guarded by a flag that is still a constant the first time round). So the dry run is repeated
+	// from a state in which everything found so far already has an arbitrary value, until nothing new shows up.
+	seen := map[any]bool{}
+	var all []any
+	cur := st
+	for round := 0; round < 6; round++ {
+		mod := fc.dryRunOnce(cur, label, iter)
+		grew := false
+		for _, k := range mod {
+			if !seen[k] {
+				seen[k] = true
+				all = append(all, k)
+				grew = true
+			}
+		}
+		if !grew {
+			break
+		}
+		cur = st.clone()
+		savedFresh := fc.freshOnly
+		fc.dry++
+		fc.havocKeys(cur, all)
+		fc.dry--
+		fc.freshOnly = savedFresh
+	}
+	sort.Slice(all, func(i, j int) bool { return fmt.Sprint(all[i]) < fmt.Sprint(all[j]) })
+	return all
+}
+
+func (fc *FnCtx) dryRunOnce(st *State, label string, iter func(d *State)) []any {
 	// save ordinals so that names in the real run are unaffected
 	savedLoopOrd, savedRetOrd := fc.loopOrd, fc.retOrd
 	savedInvCall := fc.invCallOrd
